@@ -73,51 +73,97 @@ func runC37(c *core.Ctx) {
 		return
 	}
 	k := 0
-	for _, r := range core.Returns(cr) {
-		k++
-		v := core.RetOperand(r, 0)
-		name := fmt.Sprintf("computeRating/return#%d", k)
-		if _, f := core.FieldLoad(v); f == minF || f == maxF {
-			c.Pass("C37/clamp-complete", name, r.Pos(), "returns the "+f.Name()+" bound")
-			continue
-		}
-		// the computed value: strip conversions
-		raw := v
-		for {
-			if cv, ok := raw.(*ssa.Convert); ok {
-				raw = cv.X
+	// clampReturns judges the returns of the function that clamps: computeRating itself, or a helper of the
+	// package it hands the value and the two bounds to (isMin/isMax recognise the bounds there, minKey/maxKey
+	// name them in facts, outer maps a returned parameter back to the value computeRating computed)
+	var clampReturns func(g *ssa.Function, prefix string, isMin, isMax func(ssa.Value) bool, minKey, maxKey string, outer func(ssa.Value) ssa.Value, depth int)
+	clampReturns = func(g *ssa.Function, prefix string, isMin, isMax func(ssa.Value) bool, minKey, maxKey string, outer func(ssa.Value) ssa.Value, depth int) {
+		for _, r := range core.Returns(g) {
+			k++
+			v := core.RetOperand(r, 0)
+			name := fmt.Sprintf("%s/return#%d", prefix, k)
+			if isMin(v) {
+				c.Pass("C37/clamp-complete", name, r.Pos(), "returns the minRating bound")
 				continue
 			}
-			break
-		}
-		rk := core.ExprKey(raw)
-		lower, upper := false, false
-		for _, f := range core.FactsAt(r.Block()) {
-			// canonical facts use <, <=, ==, != with constants folded to the left
-			mentionsMin := strings.Contains(f.A+f.B, "recv.minRating")
-			mentionsMax := strings.Contains(f.A+f.B, "recv.maxRating")
-			switch {
-			case mentionsMin && (f.Op == "<=" && f.B == rk || f.Op == "<" && f.B == rk):
-				lower = true
-			case mentionsMax && (f.Op == "<=" && f.A == rk || f.Op == "<" && f.A == rk):
-				upper = true
+			if isMax(v) {
+				c.Pass("C37/clamp-complete", name, r.Pos(), "returns the maxRating bound")
+				continue
 			}
-		}
-		c.Check(lower && upper, "C37/clamp-complete", name, r.Pos(), "the value returned is known to be >= minRating and <= maxRating",
-			fmt.Sprintf("the computed rating is returned without both bounds established (>= minRating: %v, <= maxRating: %v): the rating leaves its configured range", lower, upper))
-		// widened before the addition
-		add, isAdd := raw.(*ssa.BinOp)
-		wide := false
-		if isAdd && add.Op == token.ADD {
-			if b, ok := add.Type().Underlying().(*types.Basic); ok && b.Kind() == types.Int64 {
-				_, cx := add.X.(*ssa.Convert)
-				_, cy := add.Y.(*ssa.Convert)
-				wide = cx && cy
+			// delegated: `return clamp(value, min, max)`
+			if call, isCall := v.(*ssa.Call); isCall && depth == 0 {
+				if h := call.Call.StaticCallee(); h != nil && h.Blocks != nil && h.Pkg == g.Pkg {
+					var pMin, pMax, pVal *ssa.Parameter
+					var argVal ssa.Value
+					for i, p := range h.Params {
+						if i >= len(call.Call.Args) {
+							continue
+						}
+						switch a := call.Call.Args[i]; {
+						case isMin(a):
+							pMin = p
+						case isMax(a):
+							pMax = p
+						default:
+							if bt, ok := p.Type().Underlying().(*types.Basic); ok && bt.Info()&types.IsInteger != 0 {
+								pVal, argVal = p, a
+							}
+						}
+					}
+					if pMin != nil && pMax != nil && pVal != nil {
+						c.Analysed(fname(h))
+						k--
+						clampReturns(h, prefix, func(x ssa.Value) bool { return x == ssa.Value(pMin) }, func(x ssa.Value) bool { return x == ssa.Value(pMax) },
+							core.ExprKey(pMin), core.ExprKey(pMax), func(x ssa.Value) ssa.Value {
+								if x == ssa.Value(pVal) {
+									return argVal
+								}
+								return x
+							}, 1)
+						continue
+					}
+				}
 			}
+			// the computed value: strip conversions
+			raw := v
+			for {
+				if cv, ok := raw.(*ssa.Convert); ok {
+					raw = cv.X
+					continue
+				}
+				break
+			}
+			rk := core.ExprKey(raw)
+			lower, upper := false, false
+			for _, f := range core.FactsAt(r.Block()) {
+				// canonical facts use <, <=, ==, != with constants folded to the left
+				mentionsMin := strings.Contains(f.A+f.B, minKey)
+				mentionsMax := strings.Contains(f.A+f.B, maxKey)
+				switch {
+				case mentionsMin && (f.Op == "<=" && f.B == rk || f.Op == "<" && f.B == rk):
+					lower = true
+				case mentionsMax && (f.Op == "<=" && f.A == rk || f.Op == "<" && f.A == rk):
+					upper = true
+				}
+			}
+			c.Check(lower && upper, "C37/clamp-complete", name, r.Pos(), "the value returned is known to be >= minRating and <= maxRating",
+				fmt.Sprintf("the computed rating is returned without both bounds established (>= minRating: %v, <= maxRating: %v): the rating leaves its configured range", lower, upper))
+			// widened before the addition
+			add, isAdd := outer(raw).(*ssa.BinOp)
+			wide := false
+			if isAdd && add.Op == token.ADD {
+				if b, ok := add.Type().Underlying().(*types.Basic); ok && b.Kind() == types.Int64 {
+					_, cx := add.X.(*ssa.Convert)
+					_, cy := add.Y.(*ssa.Convert)
+					wide = cx && cy
+				}
+			}
+			c.Check(wide, "C37/clamp-complete", name+"/sum-widened", r.Pos(), "currentRating and the step are widened to int64 before they are added",
+				"the new rating is not an int64 sum of operands widened before the addition: a 32-bit sum wraps around before it can be clamped")
 		}
-		c.Check(wide, "C37/clamp-complete", name+"/sum-widened", r.Pos(), "currentRating and the step are widened to int64 before they are added",
-			"the new rating is not an int64 sum of operands widened before the addition: a 32-bit sum wraps around before it can be clamped")
 	}
+	clampReturns(cr, "computeRating", func(x ssa.Value) bool { _, f := core.FieldLoad(x); return f == minF }, func(x ssa.Value) bool { _, f := core.FieldLoad(x); return f == maxF },
+		"recv.minRating", "recv.maxRating", func(x ssa.Value) ssa.Value { return x }, 0)
 	c.Floor("C37/clamp-complete", 4)
 	// ---- S3
 	if ctor := anchorF(c, pkg, "NewBlockSigningRater"); ctor != nil {
